@@ -46,9 +46,14 @@ theorem find_map_propD (ps : Props) (k : String) :
 nothing of a geff yet, every well-formed graph (as in C01) and consistent caller metadata: the store
 `write_arrays` produces is laid out as docs/specification.md says (`denote` is defined on it) and
 denotes exactly the graph given to the writer — same directedness, ids and edges, and for every
-property the same cells, missing ones absent.  (Acceptance by the library's structural validation is
-C04's model; the harness checks `validate_structure` on every written store.) -/
-theorem C02_writer_conforms (s0 : St) (g : InMem) (md : CallerMeta) (n e : Nat) (nps eps : Props)
+property the same cells, missing ones absent.
+
+PARTIAL with respect to the property text, which continues "… and is accepted by the library's
+structural validation": the full statement has the further conjunct `validateStructure s' = ok` for
+C04's model of `validate_structure`.  Missing: the bridge from the flat store `St` to C04's nested
+store type and the proof that the written store is `Conformant` there (then `C04_sound_complete` gives
+acceptance).  The harness runs the real `validate_structure` on every written store and it must accept. -/
+theorem C02_writer_conforms_partial (s0 : St) (g : InMem) (md : CallerMeta) (n e : Nat) (nps eps : Props)
     (hfresh : Fresh s0) (hwf : WFGeff g n e nps eps) (hax : AxesOK md n nps) :
     ∃ s', writeCore vlenCodec s0 g md = .ok s' ∧ ∃ G, denote s' = some G ∧
       SameGraph G (graphOfInput md.directed g.nodeIds g.edgeIds (expectedNodeProps md n nps) eps) := by
@@ -76,11 +81,14 @@ theorem C02_reader_accepts_all_conformant (s : St) (hfit : IntsFit s) (G : Graph
     ∃ r, readCore vlenCodec s = .ok r ∧ graphOf r = G :=
   readCore_of_denote s hfit G h
 
-/-- the same with structural validation on (the default of `read_to_memory`): `validate` is C04's model of
-`validate_structure`; the one fact used is the named hypothesis that it accepts this conformant store
-(C04's theorem `validate = ok ↔ conformant`; checked by the harness with the real validator on every
-independent store — where it failed on the unrepaired tree, that is D5 / D19 / the int64 offset table). -/
-theorem C02_reader_accepts_all_conformant_validated (validate : St → Outcome Unit) (s : St) (hfit : IntsFit s)
+/-- the same with structural validation on (the default of `read_to_memory`) — PARTIAL: `validate` is a
+parameter standing for C04's model of `validate_structure`, and that it accepts this conformant store is
+the named hypothesis `hval`.  Missing: deriving `hval` from `denote s = some G` through
+`C04_sound_complete` (needs the bridge between the two store types and `denote`-conformant ⊆
+C04-`Conformant`; they differ at least on offset tables of a dtype other than uint64 — the known finding).
+The harness reads every independent store with the real validator on; where that failed on the unrepaired
+tree it was D5 / D19 / the int64 offset table. -/
+theorem C02_reader_accepts_all_conformant_validated_partial (validate : St → Outcome Unit) (s : St) (hfit : IntsFit s)
     (G : Graph) (h : denote s = some G) (hval : validate s = .ok ()) :
     ∃ r, readToMemory vlenCodec validate s = .ok r ∧ graphOf r = G := by
   obtain ⟨r, hr, hg⟩ := readCore_of_denote s hfit G h
